@@ -106,7 +106,7 @@ def _sset(items):
 
 
 def r2(ctx):
-    b = ctx.fbody(name="update_from_trade", self_adt=POS, trait="")
+    b = ctx.fibody(name="update_from_trade", self_adt=POS, trait="")
     eff = _effects(ctx, b)
     rets = b.expanded_cases(0)
     Q, q, f, p, pnl, fe, fx, t = F("Q"), sympy.Abs(F("tq")), F("f"), F("p"), F("pnl"), F("fe"), F("fx"), F("t")
@@ -164,7 +164,7 @@ def r2(ctx):
 
 
 def r1(ctx):
-    b = ctx.fbody(name="update_from_trade", self_adt=POS, trait="")
+    b = ctx.fibody(name="update_from_trade", self_adt=POS, trait="")
     push = [(bi, t, tm) for bi, t, tm in b.real_calls() if tm[1].endswith("Vec::<T, A>::push") and render(tm[2][0]) == "self.trades"]
     ok = len(push) == 1 and render(push[0][2][2][1]) == "trade.id"
     ctx.check("Position::update_from_trade", ok, "the fill id is recorded once", got=[render(x[2]) for x in push], key="push")
@@ -174,7 +174,7 @@ def r1(ctx):
             atoms.atom_cmp(next(iter(next(iter(g)))))[0] == "eq"
         ctx.check("Position::update_from_trade", okg, "on every path except the instrument-mismatch rejection", got=render_guard(g), key="every-path")
     fr = ctx.find(name="from", self_adt=POS, trait="std::convert::From")
-    fb = ctx.body(fr)
+    fb = ctx.ibody(fr)
     rt = fb.return_term()
     push = [(bi, t, tm) for bi, t, tm in fb.real_calls() if tm[1].endswith("Vec::<T, A>::push")]
     ctx.check("Position::from(&Trade)", len(push) == 1 and render(push[0][2][2][1]) == "trade.id" and fb.guard(push[0][0]) == frozenset([frozenset()]),
@@ -191,7 +191,7 @@ def r1(ctx):
 
 
 def r3(ctx):
-    b = ctx.fbody(name="update_from_trade", self_adt=POS, trait="")
+    b = ctx.fibody(name="update_from_trade", self_adt=POS, trait="")
     Q, q, f = F("Q"), sympy.Abs(F("tq")), F("f")
     # flip: synthetic next trade
     nxt = [tm for bi, t, tm in b.real_calls() if tm[1] == ctx.find(name="from", self_adt=POS, trait="std::convert::From")]
@@ -235,7 +235,7 @@ def r3(ctx):
 
 
 def r4(ctx):
-    c = ctx.body(ctx.find(path="barter::engine::state::position::calculate_pnl_realised"))
+    c = ctx.ibody(ctx.find(path="barter::engine::state::position::calculate_pnl_realised"))
     names = [c.param_name(i) for i in range(1, c.argc + 1)]
     ctx.check("calculate_pnl_realised", names == ["position_side", "price_entry_average", "closed_quantity", "closed_price", "closed_fee"],
               "parameter roles", got=names, key="params")
@@ -253,7 +253,7 @@ def r4(ctx):
         seen.add(side)
         ctx.check("calculate_pnl_realised:" + side, ok, "realised = (+/-)(|q|*close - |q|*entry) - fee", got=str(ex), want=str(want.get(side)), key="formula")
     ctx.check("calculate_pnl_realised", seen == {"Buy", "Sell"}, "one formula per side", got=sorted(seen), key="arms")
-    a = ctx.body(ctx.find(path="barter::engine::state::position::calculate_price_entry_average"))
+    a = ctx.ibody(ctx.find(path="barter::engine::state::position::calculate_price_entry_average"))
     ca, cq2, tp, tq = sympy.symbols("current_price_entry_average current_quantity_abs trade_price trade_quantity_abs")
     main = [(g, t) for g, t, bi in a.expanded_cases(0) if not render(t).endswith("Decimal::ZERO")]
     ok = len(main) == 1
@@ -263,19 +263,19 @@ def r4(ctx):
         except formula.NotAFormula:
             ok = False
     ctx.check("calculate_price_entry_average", ok, "volume-weighted average (avg*Q + p*q)/(Q+q)", got=[render(t) for g, t in main], key="formula")
-    u = ctx.fbody(name="update_price_entry_average", self_adt=POS, trait="")
+    u = ctx.fibody(name="update_price_entry_average", self_adt=POS, trait="")
     st = u.stores()
     ok = len(st) == 1 and render(st[0][2]) == "self.price_entry_average" and [render(x) for x in st[0][3][2]] == \
         ["self.price_entry_average", "self.quantity_abs", "trade.price", "Decimal::abs(trade.quantity)"] and \
         mir.short(st[0][3][1]) == "position::calculate_price_entry_average"
     ctx.check("Position::update_price_entry_average", ok, "arguments feed the parameters of the same role", got=[(render(s[2]), render(s[3])) for s in st], key="roles")
-    r = ctx.fbody(name="update_pnl_realised", self_adt=POS, trait="")
+    r = ctx.fibody(name="update_pnl_realised", self_adt=POS, trait="")
     cs = [tm for bi, t, tm in r.real_calls() if tm[1] == "std::ops::AddAssign::add_assign"]
     ok = len(cs) == 1 and render(cs[0][2][0]) == "self.pnl_realised" and render(cs[0][2][1]) == \
         "position::calculate_pnl_realised(self.side, self.price_entry_average, closed_quantity, closed_price, closed_fee)"
     ctx.check("Position::update_pnl_realised", ok, "pnl_realised += calculate_pnl_realised(side, entry, qty, price, fee)", got=[render(x) for x in cs], key="roles")
     # ordering in the increase arm: the average is updated before the quantity grows
-    b = ctx.fbody(name="update_from_trade", self_adt=POS, trait="")
+    b = ctx.fibody(name="update_from_trade", self_adt=POS, trait="")
     up = [bi for bi, t, tm in b.real_calls() if mir.short(tm[1]) == "Position::update_price_entry_average"]
     inc = [bi for bi, t, tm in b.real_calls() if tm[1] == "std::ops::AddAssign::add_assign" and render(tm[2][0]) == "self.quantity_abs"]
     ctx.check("Position::update_from_trade:increase", len(up) == 1 and len(inc) == 1 and b.dominates(up[0], inc[0]) and up[0] != inc[0],
@@ -284,7 +284,7 @@ def r4(ctx):
 
 
 def r5(ctx):
-    b = ctx.fbody(name="update_from_trade", self_adt=PM, trait="")
+    b = ctx.fibody(name="update_from_trade", self_adt=PM, trait="")
     st = [(render(s[2]), render(s[3]), render_guard(b.guard(s[0]))) for s in b.stores()]
     want = [("self.current", "phi(Option::Some{0: Position::from(trade)} | Position::update_from_trade(Option::take(self.current).as:Some.0, trade).0)", "true")]
     ctx.check("PositionManager::update_from_trade", st == want,
@@ -296,7 +296,7 @@ def r5(ctx):
     ctx.check("PositionManager::update_from_trade", cs.get("Position::from") == "(Option::take(self.current) is None)" and
               cs.get("Position::update_from_trade") == "(Option::take(self.current) is Some)", "per case", got=cs, key="cases")
     pe = ctx.find(name="from", self_adt="barter::engine::state::position::PositionExited", trait="std::convert::From")
-    rt = ctx.body(pe).return_term()
+    rt = ctx.ibody(pe).return_term()
     f = {k: render(v) for k, v in zip(rt[2], rt[3])} if rt[0] == "agg" else {}
     want = {"pnl_realised": "value.pnl_realised", "fees_enter": "value.fees_enter", "fees_exit": "value.fees_exit", "trades": "value.trades",
             "quantity_abs_max": "value.quantity_abs_max", "price_entry_average": "value.price_entry_average", "side": "value.side",
